@@ -237,6 +237,19 @@ pub fn run_cases(prop: &str, list_path: &str, outdir: &str, case_fn: &dyn Fn(usi
         if !cut && ms(&rline) != ms(&line) {
             fail = Some(format!("the macro expansion of `{}` behaves differently from its documented meaning (reference program built through the runtime API): macro {} | reference {}", row[3], line, rline));
         }
+        // oracle 3 (independent of the engine's constraint code): for programs that elaborate to ==, !=, conjunction,
+        // conde and fresh only, the ground instances of the MACRO-built program's answers are exactly the brute-force
+        // ground solutions of the documented meaning (both inclusions, as C02) — a defect in a goal CONSTRUCTOR, which
+        // the reference program shares with the macro expansion, shows here
+        if fail.is_none() && !cut && p.nq <= 3 && crate::c02::pure_tree(&p.body) {
+            if let RunOut::Answers(a, _) = &mo {
+                let sols = crate::tree::solutions(&p);
+                out.stat("brute_force_semantics_checked");
+                if let Some(f) = crate::c02::check_answers(p.nq, a, &sols) {
+                    fail = Some(format!("`{}`: {} (brute-force ground semantics of the documented meaning)", row[3], f));
+                }
+            }
+        }
         // oracle 2 (C15): the alpha-renamed twin has the same answers
         let twin: isize = row[1].parse().unwrap_or(-1);
         if fail.is_none() && twin >= 0 {
